@@ -2,6 +2,7 @@ package verifh
 
 import (
 	"fmt"
+	"strconv"
 	"strings"
 	"testing"
 	"time"
@@ -211,7 +212,46 @@ func genC03Base(t *rapid.T) c03Case {
 	return c
 }
 
+// numericAliases: for 32 keys, the 9- and 10-digit code of a counter and every same-width decimal string whose VALUE differs from
+// it by 2^k (k = 8, 16, 24, 31, 32, 33) — what a comparison of narrowed numbers takes for the code. Enumerated, because the
+// random submissions meet a 10-digit code whose alias keeps the width only now and then (C04-r5 was caught at seed 1 only).
+func numericAliases(each func(key []byte, counter uint64, digits int, alias string)) {
+	for k := 0; k < 32; k++ {
+		key := []byte(fmt.Sprintf("alias-key-%02d-0123456789", k))
+		counter := uint64(1000 + k)
+		for _, digits := range []int{10, 9} {
+			code := ref.MustHOTP(key, counter, digits, 0)
+			v, _ := strconv.ParseUint(code, 10, 64)
+			limit := uint64(1)
+			for i := 0; i < digits; i++ {
+				limit *= 10
+			}
+			for _, sh := range []uint{8, 16, 24, 31, 32, 33} {
+				for _, up := range []bool{true, false} {
+					a := v + 1<<sh
+					if !up {
+						if v < 1<<sh {
+							continue
+						}
+						a = v - 1<<sh
+					}
+					if a >= limit {
+						continue
+					}
+					each(key, counter, digits, fmt.Sprintf("%0*d", digits, a))
+				}
+			}
+		}
+	}
+}
+
 func TestC03_Main(t *testing.T) {
+	i := 0
+	numericAliases(func(key []byte, counter uint64, digits int, alias string) {
+		if i++; ev.Mine(i) {
+			c03Main.each(t, c03Case{Key: key, Sp: gen.Spelling{Pad: 1}, Counter: counter, Skew: uint64(i % 3), Digits: digits, Code: []byte(alias), Origin: "numeric-alias-enumerated"})
+		}
+	})
 	c03Main.rapid(t, ev.Pick(25_000, 400_000), genC03)
 }
 
@@ -425,5 +465,11 @@ func maxU(a, b uint64) uint64 {
 }
 
 func TestC04_Main(t *testing.T) {
+	i := 0
+	numericAliases(func(key []byte, counter uint64, digits int, alias string) {
+		if i++; ev.Mine(i) {
+			c04Main.each(t, c04Case{Key: key, Sp: gen.Spelling{Pad: 1}, Unix: int64(counter*30 + uint64(i%30)), Period: 30, Skew: uint64(i % 3), Digits: digits, Code: []byte(alias), Origin: "numeric-alias-enumerated"})
+		}
+	})
 	c04Main.rapid(t, ev.Pick(25_000, 400_000), genC04)
 }
